@@ -44,8 +44,46 @@ WHAT = {
     "C19-B": "handle_cpp_lambda: original column of the split `]` derived from the `[`",
     "C20-A": "newlines_eat_start_end: start-of-file guard compares with nl_end_of_file_min",
     "C20-B": "can_increase_nl: nl_before_namespace block moved in front of the eat_blanks_before_close_brace veto",
+    # second round
+    "C02-C": "tokenize(): trailing-blank strip rewritten with one resize; the keep-one-blank-after-backslash test looks at the wrong index",
+    "C02-D": "newlines_do_else: the `{` is searched with E_Scope::PREPROC and then moved across a directive by newline_del_between()",
+    "C03-C": "tokenize_cleanup: conversion-operator type words gathered with GetNextNcNnl(); the clean-up loop then deletes the comments in between",
+    "C03-D": "remove_next_newlines: SafeToDeleteNl() replaced by a preprocessor-only test",
+    "C04-C": "paren_multiline_before_brace: level argument of GetPrevType dropped (open and close brace vetoed separately)",
+    "C04-D": "remove_duplicate_include: the list of seen includes became a never-cleared static",
+    "C06-C": "ParsingFrameStack::check: 'pp level is ZERO' guards removed (empty frame vector indexed)",
+    "C06-D": "parse_next: the garbage-character message lost its trailing newline (never flushed before exit)",
+    "C07-C": "parse_next: the disable_processing_nl_cont scan moved in front of the disabled-region test",
+    "C07-D": "parse_newline counts line endings (region content decides the file's terminator)",
+    "C08-C": "tokenize(): the newlines=auto choice rewritten as a running maximum that forgets CRLF",
+    "C08-D": "parse_macro: continuation look-ahead accepts blanks but tests '\\n' only (CR files)",
+    "C09-C": "decode_utf16: BMP test moved first with upper edge 0xDC00 (lone low surrogate accepted)",
+    "C09-D": "encode_utf8: thresholds rewritten as inclusive bounds, 3-byte one kept 0x10000",
+    "C10-C": "load_mem_file_config: the name as given (cwd-relative) is tried before the config directory",
+    "C10-D": "uncrustify_end: resets of cpd.in_preproc / cpd.preproc_ncnl_count dropped",
+    "C11-C": "language_flags_from_filename: function-static cache keyed by lower-cased extension",
+    "C11-D": "restoreValues cleared in space_text() instead of restore_options_for_QT()",
+    "C12-C": "bout_content_matches: report_status folded into the byte comparison",
+    "C12-D": "cpd.bout became vector<char> (signed comparison with the raw bytes)",
+    "C13-C": "embedded NUL: uncrustify_file returns instead of exit (empty temp file installed)",
+    "C13-D": "MD5::Update: `>= 64` became `> 64`",
+    "C14-C": "backup_copy_file: mtime shortcut before the content hash",
+    "C14-D": "make_output_filename squeezes `//` after formatting the name",
+    "C15-C": "save_option_file: single-quote delimiter for values containing a double quote, unescaped",
+    "C15-D": "print_extensions skips mappings that repeat the built-in table",
+    "C16-C": "Option<T>::validate takes T instead of long (value narrowed before the range check)",
+    "C16-D": "current_config_file global set by load_option_file, not restored after include",
+    "C17-C": "newlines_eat_start_end: the append-a-newline arm guarded by the force-only local",
+    "C17-D": "tokenize(): the strip loop stops at a tab when align_keep_tabs is set",
+    "C18-C": "align_left_shift: chain restarts only at a directive, not at the end of a #define body",
+    "C18-D": "indent_text: the break-after-case-brace hack also fires after plain blocks",
+    "C19-C": "output_text: NL_CONT column no longer recomputed from cpd.column (tab inside a literal)",
+    "C19-D": "restore_options_for_QT: reverse index loop skips the last table entry",
+    "C20-C": "do_blank_lines: nl_max cap skipped for newlines flagged PCF_VAR_DEF",
+    "C20-D": "newlines_remove_disallowed: loop now visits a newline that is the list head",
 }
-FIRST = {  # result of the first run, before any rule was changed in response to the seeds
+FIRST = {  # result of the first run of each round, before any rule was changed in response to that round
+    "C03-D", "C07-C", "C08-C", "C09-C", "C10-D", "C11-C", "C11-D", "C12-C", "C12-D", "C14-C", "C20-C",
     "C06-B", "C07-A", "C09-A", "C09-B", "C10-B", "C11-A", "C11-B", "C12-A", "C12-B", "C14-A", "C16-A", "C19-A", "C20-A",
 }
 AFTER = {  # rule added / tightened after the miss (DESIGN.md section 4)
@@ -58,6 +96,18 @@ AFTER = {  # rule added / tightened after the miss (DESIGN.md section 4)
     "C16-B": "C16.no-throw: non-empty check required (tightened: the rule was unsound for \"\")",
     "C17-A": "C17.strip: preproc-body/no-blank-after-backslash (new obligation)", "C17-B": "C17.tabs-off: definitions after the join (tightened)",
     "C20-B": "C20.eat-blanks: veto priority path check (new obligation)",
+    # second round
+    "C04-D": "a cross-file leak, C11's subject: reported by C11.reset and C10; the first-run report by C04.sort-whole-lines was a false alarm on `==` for `strcmp() == 0` and was corrected",
+    "C06-C": "not decided (the guard relates a counter to the size of a vector); the first-run report by C06.exit-discipline was an artefact of ordinal instance keys - the five keyed exceptions were replaced by condition-aware path pruning",
+    "C06-D": "C06.exit-discipline: diagnostic-is-flushed (new obligation)",
+    "C07-D": "C07/C08.region-uncounted (new)", "C09-D": "C09.utf8-tables: `<=` thresholds understood (was analysis-broken)",
+    "C13-C": "C13.output-or-exit (new)", "C13-D": "C13/C14.md5-block-invariant (new)", "C14-D": "C13/C14.inplace-name: nothing-after-final-snprintf (tightened), rule shared with C14",
+    "C15-C": "the writer's quoting idiom changed: C15.string-escape-agreement loses its anchor and reports analysis-broken (exit 2) - not a pass, not a verdict",
+    "C15-D": "C15.ext-map-domain: no-entry-skipped (new obligation)", "C16-C": "C16.store-after-validate: validated-in-full-width (new obligation)",
+    "C16-D": "C16.bounded-recursion: include/restores/<global> (new obligation)",
+    "C17-C": "C17/C20.eof-families: <option>=add/force/remove reachability (new obligation); the first-run report came from lost attribution through locals, now resolved",
+    "C17-D": "C17.strip: strip-unconditional (tightened: the filter let conditions on the chunk text through)",
+    "C19-D": "C11/C19.qt-restore: save-and-restore-walk-the-same-table (new obligation, rule shared with C19)",
 }
 NOT_DECIDED = {
     "C03-A": "a lexical constant of the language (delimiter length 16)",
@@ -67,6 +117,15 @@ NOT_DECIDED = {
     "C18-A": "which token kinds own a brace is a table of the language, not a shape of the code",
     "C18-B": "frame-stack semantics of the preprocessor",
     "C19-B": "original-column arithmetic",
+    "C02-C": "index arithmetic in the strip (C17.strip loses its anchor on this shape: analysis-broken)",
+    "C02-D": "which navigation scope a caller may combine with newline_del_between()'s brace hoisting",
+    "C03-C": "which chunk kinds lie between two tokens found by comment-skipping navigation",
+    "C04-C": "a level argument",
+    "C08-D": "character look-ahead arithmetic",
+    "C10-C": "the order of two file-name lookups",
+    "C18-C": "alignment chain semantics", "C18-D": "a parent-type list of the language",
+    "C19-C": "column arithmetic",
+    "C20-D": "which chunk a loop visits first",
 }
 
 
